@@ -14,11 +14,19 @@ PID = "C15"
 PROPS_MODULE = "NumbersModel.Props.C15"
 THEOREMS = [f"NumbersModel.Props.C15.{t}" for t in (
     "open_view_lww", "open_view_lww_from", "saved_view_lww", "open_eq_saved", "load_establishes_inv", "shared_edge_both_sides",
-    "api_total_in_range", "fingerprint_injective", "dedup_shares_only_equal", "reading_is_pure",
+    "api_total_in_range", "open_view_lww_edits", "saved_view_lww_edits", "open_view_lww_edits_from", "open_eq_saved_edits",
+    "shared_edge_both_sides_edits", "edits_keep_inv", "edits_total_in_range", "fingerprint_injective", "dedup_shares_only_equal", "reading_is_pure",
     "colour_roundtrip", "colour_roundtrip_binary32", "font_name_roundtrip", "style_attributes_after_reload_quantized",
     "style_attributes_after_reload", "style_attributes_after_reload_binary32", "updated_style_reads_back",
     "shared_cell_style_reads_back", "style_archives_injective", "saved_cell_style_ids", "restyled_cell_reads_back")]
 PARTIAL = {
+    "border_edits_not_covered": "the *_edits theorems quantify over histories of set_cell_border, Table.write, merge_cells and add_row(n) / "
+                                "add_column(n) WITHOUT a start index (appended). Not covered, no model step: rows / columns inserted before "
+                                "the end and delete_row / delete_column (the stroke layers are indexed by row / column number and are not "
+                                "renumbered by these edits, while the open cells move with their borders - what the saved file should say "
+                                "is a design decision; not generated), write onto a placeholder of a merged rectangle (the new cell is no "
+                                "MergedCell: property C12), merge_cells over an existing merged rectangle (Border.mergeKind is the merge map "
+                                "only for rectangles that do not overlap earlier ones; the theorems hold for the model's layout anyway)",
     "document_level_save_loop": "style_attributes_after_reload is proved per cell from the archives the writers produce and the ids "
                                 "_to_buffer assigns (restyled_cell_reads_back, shared_cell_style_reads_back, saved_cell_style_ids); "
                                 "the loops around them - update_paragraph_styles over Document.styles, update_cell_styles' dict loop "
@@ -29,7 +37,12 @@ PARTIAL = {
 RULE = ("borders: seeded histories of 4..40 strokes (side, start cell, length 1..6, payload from a palette of widths x colours x "
         "4 patterns; biased to a few rows/columns so that strokes overlap, abut and supersede; Border objects partly re-used) on "
         "5x5..12x8 tables with 0..3 merged rectangles, cut into 1..3 segments by save/reopen; one protocol line per segment "
-        "(initial layers are read from the real file). styles: N styles x M cells over fonts x sizes x RGB x 5x3 alignments x "
+        "(initial layers are read from the real file). editing histories: 4x4..9x7 tables (0..3 merged rectangles, loaded or not), "
+        "1..3 segments of 3..14 steps out of {stroke (as above, biased to the last row / column and running past it), write of a "
+        "str/int/float/bool to a cell that is not a placeholder, merge_cells of a rectangle disjoint from the merged ones, add_row(1..2), "
+        "add_column(1..2), a border read in between}, save/reopen between segments; oracle = an edge map kept by the harness over the "
+        "final shape and merges; non-trivial = at least three kinds of step incl. a stroke. merge_cells inside / touching / leaving a "
+        "4x4 table after two strokes (15 rectangles, IndexError). styles: N styles x M cells over fonts x sizes x RGB x 5x3 alignments x "
         "indents x inset x wrap x bg colour/image. Non-trivial = a segment with at least two strokes sharing a unit edge, or a "
         "style case with at least two distinct styles; distinct by protocol line / style set. storage tie: 1..3 styles with all 15 "
         "attributes explicit (colour components from 0/1/127/128/254/255, the 15 alignment pairs in rotation, fonts from "
@@ -42,6 +55,9 @@ ASSUMPTIONS = [
     "(float32 width read back with round(.,2), colour as round(r/255*255)) is exercised for every stroke, not proved",
     "Border objects re-used by the caller are re-stamped by add_stroke; after the repair every comparison in a CellBorder setter "
     "involves a fresh maximal stamp, so the alias is not modelled (generator re-uses objects to exercise it)",
+    "Table.write / merge_cells / add_row / add_column are modelled on the borders only (Border.Step): which CellBorder objects are "
+    "fresh, which are kept, when the extract_strokes cache entry is dropped and the extraction runs again; the merge map after "
+    "merge_cells is Border.mergeKind (property C12 is about that map); values, styles, formats of the cells are not in this model",
     "stored layers of a loaded file satisfy: max_order >= every run order; runs of equal order that cover the same edge carry the "
     "same stroke (checked on every fixture table the run touches)",
     "style floats are drawn from binary32-representable values (file-format limit, known finding style-float-not-binary32)",
@@ -60,7 +76,14 @@ MANIFEST = {
             "Table.set_cell_border: for every table shape (incl. merged cells), every starting file whose layers are well-formed "
             "and every sequence of strokes, the open document shows on each visible cell side the most recent stroke along that "
             "edge (open_view_lww), what extract_strokes reads from the stored layers is the same (saved_view_lww, open_eq_saved), "
-            "both cells adjacent to an edge report the same stroke (shared_edge_both_sides); the style de-duplication key is "
+            "both cells adjacent to an edge report the same stroke (shared_edge_both_sides). Editing histories (Border.Doc / Border.Step, "
+            "repaired code): Table.write keeps the border object of the cell it replaces, merge_cells (fresh CellBorder for every cell) "
+            "and add_row / add_column without start index (fresh cells) drop the extract_strokes cache entry and the extraction runs "
+            "again onto the cells as they are; for every history interleaving strokes with these edits, from a new document or any "
+            "well-formed file: open view = edge map of the accepted strokes on the final table shape (open_view_lww_edits[_from]), "
+            "= what a reopened copy shows (saved_view_lww_edits, open_eq_saved_edits), both cells on an edge agree "
+            "(shared_edge_both_sides_edits), the stroke-history invariant holds again after the edits (edits_keep_inv), in-range "
+            "histories do not raise (edits_total_in_range). The style de-duplication key is "
             "injective (fingerprint_injective, dedup_shares_only_equal) and a style that was only read is not written "
             "(reading_is_pure). Style storage path (Model/StyleStore.lean): paragraph-style and cell-style archive records, "
             "add_paragraph_style / update_paragraph_style / add_cell_style, the readers with their one-level parent look-up and "
@@ -72,11 +95,16 @@ MANIFEST = {
             "cells without a style object keep their ids (saved_cell_style_ids); round(f32(c/255)*255) = c for 0..255 under a "
             "2^-24 relative-error hypothesis over the rationals (colour_roundtrip) and for correctly rounded binary32/64 "
             "(colour_roundtrip_binary32); the font map is inverted by the reader (font_name_roundtrip). Partial: the composition of "
-            "these per-cell facts over the whole save loop (object-id allocation, Style objects shared by reference).",
+            "these per-cell facts over the whole save loop (object-id allocation, Style objects shared by reference); border "
+            "histories with rows / columns inserted before the end or deleted, writes onto merged placeholders and overlapping "
+            "merges are not covered.",
     "note": "stroke payloads are opaque (their protobuf glue is exercised, not proved); style archives are tied field by field to "
             "the saved package decoded with protobuf, every float compared as an exact fraction. The pinned commit violated the property "
             "(second stroke ignored in memory, fingerprint collision, style read marks dirty -> gradient save crash); repaired "
-            "by fixes/C15-*.patch; the model mirrors the repaired code and keeps the pinned variants as counter-examples.",
+            "by fixes/C15-*.patch; the model mirrors the repaired code and keeps the pinned variants as counter-examples. Borders lost by "
+            "the open document when cells are re-created (write, merge_cells, add_row / add_column next to or under a stroke) were "
+            "recorded findings and are now repaired (fixes/C15-write-keeps-border.patch, fixes/C15-borders-refreshed-after-cell-"
+            "recreation.patch); Doc.stepPinned keeps the pinned behaviour for the three counter-examples.",
     "technique": "Lean 4 proof (invariant over stroke histories, refinement to a last-writer-wins edge map) + differential "
                  "correspondence on seeded stroke histories and style sets + API-level oracle",
 }
@@ -367,6 +395,221 @@ def sibling_border_history(sub: Ctx, seed: int, h: int):
                     sub.violation(sig, f"{label}, table #{ti} of {len(shapes)} tables drawn on in turn: cell border differs from "
                                   f"the strokes drawn on THAT table; [row, col, reported(t,r,b,l), expected]: {describe(d, pal)}", inp)
     return []
+# ---- editing histories: strokes interleaved with write / merge_cells / add_row / add_column --------------------------------
+
+WRITE_VALUES = ["x", 7, 2.5, True, "", "long text"]
+
+
+def in_placeholder(merges, r, c):
+    return any(m[0] <= r <= m[2] and m[1] <= c <= m[3] and (r, c) != (m[0], m[1]) for m in merges)
+
+
+def gen_edit(rng, nr, nc, merges, hot, specs):
+    """one step of an editing history for a table that is nr x nc with the merged rectangles `merges` right now."""
+    k = rng.random()
+    if k < 0.52:
+        side = rng.choice(SIDES)
+        # hot lines near the last row / column so that strokes lie on (and run past) the edges rows / columns are appended to
+        r = min(rng.choice(hot[0]), nr - 1) if rng.random() < 0.6 else rng.randrange(nr)
+        c = min(rng.choice(hot[1]), nc - 1) if rng.random() < 0.6 else rng.randrange(nc)
+        if rng.random() < 0.25:
+            r = nr - 1 if rng.random() < 0.5 else r
+            c = nc - 1 if rng.random() < 0.5 else c
+        return ["stroke", side, r, c, rng.randint(1, 6), rng.randrange(len(specs))]
+    if k < 0.68:
+        for _ in range(8):
+            r, c = rng.randrange(nr), rng.randrange(nc)
+            if not in_placeholder(merges, r, c):     # a value written onto a placeholder is property C12's business
+                return ["write", r, c, rng.choice(WRITE_VALUES)]
+        return ["read", rng.randrange(nr), rng.randrange(nc)]
+    if k < 0.80:
+        for _ in range(8):
+            h, w = rng.choice([(1, 2), (2, 1), (2, 2), (1, 3), (3, 2), (2, 3), (3, 1)])
+            if h > nr or w > nc:
+                continue
+            rs, cs = rng.randrange(0, nr - h + 1), rng.randrange(0, nc - w + 1)
+            m = (rs, cs, rs + h - 1, cs + w - 1)
+            if all(m[2] < o[0] or o[2] < m[0] or m[3] < o[1] or o[3] < m[1] for o in merges):
+                return ["merge", *m]
+        return ["read", rng.randrange(nr), rng.randrange(nc)]
+    if k < 0.87 and nr < 16:
+        return ["addrow", rng.randint(1, 2)]
+    if k < 0.94 and nc < 11:
+        return ["addcol", rng.randint(1, 2)]
+    return ["read", rng.randrange(nr), rng.randrange(nc)]
+
+
+def apply_edit(tb, e, objs=None, rng=None):
+    """apply one logged step to the real table; returns True if a stroke was refused (RuntimeWarning)."""
+    from numbers_parser import RGB, Border
+    from numbers_parser.xrefs import xl_range
+    k = e[0]
+    if k == "stroke":
+        _, side, r, c, n, (w, col, sty) = e
+        key = (w, tuple(col), sty)
+        if objs is not None and key in objs and rng is not None and rng.random() < 0.3:
+            b = objs[key]            # re-use the caller's Border object
+        else:
+            b = Border(w, RGB(*col), sty)
+            if objs is not None:
+                objs[key] = b
+        with warnings.catch_warnings(record=True) as caught:
+            warnings.simplefilter("always")
+            tb.set_cell_border(r, c, side, b, n)
+        return any(issubclass(x.category, RuntimeWarning) for x in caught)
+    if k == "write":
+        tb.write(e[1], e[2], e[3])
+    elif k == "merge":
+        tb.merge_cells(xl_range(*e[1:5]))
+    elif k == "addrow":
+        tb.add_row(e[1])
+    elif k == "addcol":
+        tb.add_column(e[1])
+    elif k == "read":
+        _ = tb.cell(e[1], e[2]).border.top      # Cell.border runs extract_strokes (through its cache)
+    return False
+
+
+def edit_history(sub: Ctx, seed: int, h: int, mode: str = "edits"):
+    """strokes interleaved with writes, merges of disjoint rectangles and appended rows / columns, cut into 1..3 segments by
+    save / reopen. One protocol line per segment; oracle: an edge map kept by the harness."""
+    from numbers_parser import Document
+    from numbers_parser.xrefs import xl_range
+    rng = sub.rng
+    nr, nc = rng.randint(4, 9), rng.randint(4, 7)
+    merges = gen_merges(rng, nr, nc) if rng.random() < 0.4 else []
+    doc = Document(num_rows=nr, num_cols=nc, num_header_rows=rng.choice([0, 1]), num_header_cols=rng.choice([0, 1]))
+    tb = doc.sheets[0].tables[0]
+    for m in merges:
+        tb.merge_cells(xl_range(*m))
+    if merges and rng.random() < 0.5:
+        doc = cycle(doc)
+        tb = doc.sheets[0].tables[0]
+    where = {"seed": seed, "edit_history": h, "rows": nr, "cols": nc, "merges": [list(m) for m in merges]}
+    merges = list(merges)
+    specs = [(rng.choice(WIDTHS), (rng.randrange(256), rng.randrange(256), rng.randrange(256)), rng.choice(STYLES))
+             for _ in range(rng.randint(2, 6))]
+    pal = Palette()
+    objs: dict = {}
+    edge_map: dict = {}
+    log: list = []
+    lines = []
+    kinds = set()
+    for seg in range(rng.choice([1, 1, 2, 3])):
+        max_order, layer_words, facts = read_layers(doc, tb, pal)
+        head = ["border", mode, str(nr), str(nc), str(max_order)] + merge_words(merges) + layer_words
+        hot = ([rng.randrange(nr), nr - 1], [rng.randrange(nc), nc - 1])
+        words, nsteps, seg_strokes = [], 0, []
+        for _ in range(rng.randint(3, 14)):
+            e = gen_edit(rng, nr, nc, merges, hot, specs)
+            if e[0] == "stroke":
+                w, col, sty = specs[e[5]]
+                e = e[:5] + [[w, list(col), sty]]
+            refused = apply_edit(tb, e, objs, rng)
+            log.append(e)
+            kinds.add(e[0])
+            if e[0] == "stroke":
+                _, side, r, c, n, (w, col, sty) = e
+                from numbers_parser.cell import BORDER_STYLE_MAP
+                pid = pal.of(w, col, BORDER_STYLE_MAP[sty])
+                words += ["0", str(SIDES.index(side)), str(r), str(c), str(n), str(pid)]
+                nsteps += 1
+                seg_strokes.append((side, r, c, n))
+                if not refused:
+                    for ed in stroke_edges(side, r, c, n):
+                        edge_map[ed] = pid
+            elif e[0] == "write":
+                words += ["1", str(e[1]), str(e[2])]
+                nsteps += 1
+            elif e[0] == "merge":
+                merges.append(tuple(e[1:5]))
+                words += ["2", str(e[1]), str(e[2]), str(e[3] - e[1]), str(e[4] - e[2])]
+                nsteps += 1
+            elif e[0] == "addrow":
+                nr += e[1]
+                words += ["3", str(e[1])]
+                nsteps += 1
+            elif e[0] == "addcol":
+                nc += e[1]
+                words += ["4", str(e[1])]
+                nsteps += 1
+        open_view = grid_view(tb, pal)
+        doc = cycle(doc)
+        tb = doc.sheets[0].tables[0]
+        log.append(["save-reopen"])
+        saved_view = grid_view(tb, pal)
+        line = " ".join(head + [str(nsteps)] + words)
+        lines.append((line, f"ok {nr} {nc} " + show_grid(open_view) + " | " + show_grid(saved_view)))
+        inp = {**where, "segment": seg, "edits": list(log)}
+        want = expected_grid(nr, nc, merges, edge_map)
+        sub.count("editing-history segments (strokes x write x merge_cells x add_row x add_column): open view / reloaded view vs "
+                  "last-writer-wins edge map", 1)
+        if len(kinds) >= 3 and "stroke" in kinds:
+            sub.mark(line)
+        if (tb.num_rows, tb.num_cols) != (nr, nc):
+            sub.violation("table-shape-after-edits", f"reloaded table is {tb.num_rows}x{tb.num_cols}, expected {nr}x{nc}", inp)
+            break
+        if facts["max_run_order"] > facts["max_order"]:
+            sub.violation("stored-max-order-below-run-order", f"layers read back with max_order {facts['max_order']} < run order "
+                          f"{facts['max_run_order']}", inp)
+        d = diff_cells(open_view, want)
+        if d:
+            sub.violation("border-open-not-most-recent",
+                          "open document after an editing history: cell border differs from the most recent stroke along the edge; "
+                          f"[row, col, reported(t,r,b,l), expected]: {describe(d, pal)}", inp)
+        d = diff_cells(saved_view, want)
+        if d:
+            sub.violation("border-reloaded-not-most-recent",
+                          "after an editing history, save and reopen: cell border differs from the most recent stroke along the edge; "
+                          f"[row, col, reported(t,r,b,l), expected]: {describe(d, pal)}", inp)
+        d = diff_cells(open_view, saved_view)
+        if d:
+            sub.violation("border-open-differs-from-reloaded",
+                          f"open document and reloaded file disagree after an editing history; [row, col, open, reloaded]: "
+                          f"{describe(d, pal)}", inp)
+    if h < 3:
+        sub.sample({"kind": "editing history", **where, "edits": log[:10]})
+    return lines
+
+
+def merge_error_lines():
+    """two strokes, then merge_cells with a rectangle inside, touching or leaving a 4x4 table: IndexError exactly when a
+    placeholder position is outside (the anchor cell itself is not indexed)."""
+    from numbers_parser import RGB, Border, Document
+    from numbers_parser.xrefs import xl_rowcol_to_cell
+    req, out = [], []
+    for (rs, cs, dh, dw) in [(0, 0, 0, 0), (2, 2, 1, 1), (3, 3, 0, 0), (3, 2, 1, 0), (2, 3, 0, 1), (4, 0, 0, 1), (0, 4, 1, 0),
+                             (3, 3, 1, 1), (1, 1, 3, 0), (1, 1, 0, 3), (0, 0, 3, 3), (3, 0, 0, 3), (0, 3, 3, 0), (1, 1, 1, 2), (2, 0, 1, 3)]:
+        doc = Document(num_rows=4, num_cols=4)
+        tb = doc.sheets[0].tables[0]
+        pal = Palette()
+        max_order, layer_words, _ = read_layers(doc, tb, pal)
+        b = Border(1.0, RGB(0, 0, 0), "solid")
+        tb.set_cell_border(2, 1, "top", b, 3)
+        tb.set_cell_border(1, 3, "left", b, 3)        # runs past the last row
+        pid = pal.of(b.width, b.color, b.style)
+        try:
+            tb.merge_cells(xl_rowcol_to_cell(rs, cs) + ":" + xl_rowcol_to_cell(rs + dh, cs + dw))
+            reply = "ok 4 4 " + show_grid(grid_view(tb, pal)) + " | " + show_grid(grid_view(cycle(doc).sheets[0].tables[0], pal))
+        except Exception as e:  # noqa: BLE001
+            reply = "err " + exc_name(e)
+        req.append(" ".join(["border", "edits", "4", "4", str(max_order), "0"] + layer_words +
+                            ["3", "0", "0", "2", "1", "3", str(pid), "0", "3", "1", "3", "3", str(pid), "2", str(rs), str(cs), str(dh), str(dw)]))
+        out.append(reply)
+    return req, out
+
+
+def _edit_worker(task):
+    warnings.simplefilter("ignore")
+    seed, h = task
+    sub = Ctx(PID, "quick", seed * 4_000_037 + h)
+    try:
+        lines = edit_history(sub, seed, h)
+    except Exception as e:  # noqa: BLE001
+        import traceback
+        sub.violation("edit-history-raises", f"{exc_name(e)}: {e}; {traceback.format_exc(limit=3)}", {"seed": seed, "edit_history": h})
+        lines = []
+    return common.sub_result(sub, lines)
 
 
 def describe(d, pal):
@@ -1429,6 +1672,50 @@ def scenario(name):
         s = cycle(doc).sheets[0].tables[0].cell(1, 1).border.top
         if str(o) != str(s):
             return ("border-lost-after-write", f"stroke on the top of B2, then write('B2', 'x'): open document reports {o}, reloaded file {s}")
+    elif name == "stroke-then-add-row":
+        doc = Document(num_rows=5, num_cols=3)
+        tb = doc.sheets[0].tables[0]
+        tb.set_cell_border(4, 0, "bottom", Border(4.0, RGB(0, 0, 0), "solid"))      # bottom of A5, the last row
+        tb.set_cell_border(3, 2, "right", Border(2.0, RGB(255, 0, 0), "solid"), 4)  # right of C4, running past the last row
+        tb.add_row(2)
+        tb.add_column(1)
+        pal = Palette()
+        o = grid_view(tb, pal)
+        s = grid_view(cycle(doc).sheets[0].tables[0], pal)
+        d = diff_cells(o, s)
+        if d or o[5][0][0] is None or o[5][2][1] is None or o[5][3][3] is None:
+            return ("border-missing-on-added-cells", "4 pt stroke on the bottom of A5 (last row) and a 2 pt stroke down the right of C4..C7 "
+                    "(running past the last row), then add_row(2), add_column(1): the appended cells share those edges; "
+                    f"[row, col, open(t,r,b,l), reloaded]: {describe(d, pal)}; open A6 top {o[5][0][0]}, C6 right {o[5][2][1]}, "
+                    f"D6 left {o[5][3][3]}")
+    elif name == "stroke-then-delete-through-merge":
+        # Table._move_merges (fix 2f2a333) unmerges and re-merges when a row / column edit reaches a merged range: every cell gets
+        # a fresh CellBorder; here the range B3:C3 shrinks to one cell and is dropped, so merge_cells is not called again
+        doc = Document(num_rows=5, num_cols=5)
+        tb = doc.sheets[0].tables[0]
+        tb.merge_cells("B3:C3")
+        tb.set_cell_border(0, 0, "top", Border(2.0, RGB(255, 0, 0), "solid"))
+        tb.set_cell_border(4, 0, "left", Border(3.0, RGB(0, 0, 255), "solid"))
+        tb.delete_column(1, 2)
+        o = (str(tb.cell(0, 0).border.top), str(tb.cell(4, 0).border.left))
+        t2 = cycle(doc).sheets[0].tables[0]
+        s = (str(t2.cell(0, 0).border.top), str(t2.cell(4, 0).border.left))
+        if o != s:
+            return ("border-lost-after-merge-cells", "merge B3:C3, strokes on the top of A1 and the left of A5, then delete_column(1, 2) "
+                    f"(the merged range shrinks to one cell): open document reports {o}, reloaded file {s}")
+    elif name == "stroke-then-insert-row":
+        # recorded finding: the stroke layers are indexed by row / column number and no edit renumbers them
+        doc = Document(num_rows=5, num_cols=5)
+        tb = doc.sheets[0].tables[0]
+        tb.set_cell_border(1, 1, "top", Border(2.0, RGB(255, 0, 0), "solid"))
+        tb.add_row(1, 0)
+        pal = Palette()
+        o = grid_view(tb, pal)
+        s = grid_view(cycle(doc).sheets[0].tables[0], pal)
+        d = diff_cells(o, s)
+        if d:
+            return ("border-not-moved-with-inserted-or-deleted-rows", "2 pt stroke on the top of B2, then add_row(1, start_row=0): "
+                    f"[row, col, open(t,r,b,l), reloaded]: {describe(d, pal)}")
     elif name == "same-image-bytes":
         from numbers_parser import BackgroundImage
         doc = Document()
@@ -1490,7 +1777,8 @@ def scenario(name):
 
 
 SCENARIOS = ["second-stroke", "fingerprint", "fingerprint-1.01", "gradient-read-then-save", "float-not-binary32", "all-colour-values",
-             "all-fonts", "all-alignments", "stroke-then-merge", "stroke-then-write", "gradient-style-modified", "same-image-bytes",
+             "all-fonts", "all-alignments", "stroke-then-merge", "stroke-then-write", "stroke-then-add-row", "stroke-then-delete-through-merge",
+             "stroke-then-insert-row", "gradient-style-modified", "same-image-bytes",
              "image-and-colour-fill", "read-style-text-attribute", "rename-saved-style"]
 
 
@@ -1569,17 +1857,24 @@ def run(ctx: Ctx):
     twins = [f for f in TWIN_QUICK if f in fixtures] if ctx.quick else fixtures
     n_tie = 100 if ctx.quick else 1500
     reads = [f for f in READ_QUICK if f in fixtures] if ctx.quick else fixtures
+    n_edit = 400 if ctx.quick else 6000
     tasks = ([("b", ctx.seed, h) for h in range(n_hist)] + [("m", ctx.seed, h) for h in range(n_hist // 8)]
+             + [("e", ctx.seed, h) for h in range(n_edit)]
              + [("s", ctx.seed, h) for h in range(n_sty)]
              + [("t", f) for f in twins] + [("x", n) for n in SCENARIOS]
              + [("g", ctx.seed, h) for h in range(n_tie)] + [("r", f) for f in reads])
-    breq, bout, sreq, sout, greq, gout = [], [], [], [], [], []
+    breq, bout, sreq, sout, greq, gout, ereq, eout = [], [], [], [], [], [], [], []
     for task, lines in zip(tasks, common.run_parallel(ctx, _dispatch, tasks)):
         for a, b in lines or []:
-            (breq if task[0] == "b" else greq if task[0] in "gr" else sreq).append(a)
-            (bout if task[0] == "b" else gout if task[0] in "gr" else sout).append(b)
+            (breq if task[0] == "b" else ereq if task[0] == "e" else greq if task[0] in "gr" else sreq).append(a)
+            (bout if task[0] == "b" else eout if task[0] == "e" else gout if task[0] in "gr" else sout).append(b)
     ctx.correspond("border histories: open view | view extracted from the saved layers (one line per segment)", breq, bout,
                    keep=1, nontrivial=lambda r, o: False)
+    ctx.correspond("editing histories (set_cell_border x write x merge_cells x add_row x add_column): table shape, open view | view "
+                   "extracted from the saved layers (one line per segment)", ereq, eout, keep=1, nontrivial=lambda r, o: False)
+    req, out = merge_error_lines()
+    ctx.correspond("merge_cells on a 4x4 table: rectangles inside, touching and leaving the table (IndexError)", req, out,
+                   exhaustive=True, keep=1)
     ctx.correspond("update_cell_styles: which cells share a new cell-style object", sreq, sout, keep=1,
                    nontrivial=lambda r, o: False)
     ctx.correspond("style storage path: add_paragraph_style / add_cell_style / update_paragraph_style archives of the saved package, "
@@ -1609,6 +1904,8 @@ def _dispatch(task):
         return _sibling_border_worker(task[1:])
     if task[0] == "b":
         return _border_worker(task[1:])
+    if task[0] == "e":
+        return _edit_worker(task[1:])
     if task[0] == "s":
         return _style_worker(task[1:])
     if task[0] == "t":
@@ -1642,6 +1939,27 @@ def replay(data):
     if "fixture" in i:
         r = _twin_worker((i["fixture"],))
         return {"fixture": i["fixture"], "violations": r["violations"]}
+    if "edits" in i:
+        from numbers_parser import Document
+        from numbers_parser.xrefs import xl_range
+        doc = Document(num_rows=i["rows"], num_cols=i["cols"])
+        tb = doc.sheets[0].tables[0]
+        for m in i.get("merges", []):
+            tb.merge_cells(xl_range(*m))
+        pal = Palette()
+        out = []
+        o = None
+        for e in i["edits"]:
+            if e[0] == "save-reopen":
+                o = grid_view(tb, pal)
+                doc = cycle(doc)
+                tb = doc.sheets[0].tables[0]
+                s = grid_view(tb, pal)
+                out.append({"after_steps": i["edits"].index(e), "open_vs_reloaded_differences": describe(diff_cells(o, s, 10), pal)})
+            else:
+                apply_edit(tb, e)
+        return {"note": "the logged steps applied to a new document of the logged shape, saved and reopened where the original run did",
+                "segments": out}
     if "strokes" in i:
         from numbers_parser import RGB, Border, Document
         from numbers_parser.xrefs import xl_range
